@@ -464,9 +464,9 @@ pub fn checked_read_n(
     log: &mut LogHash,
 ) -> Result<Option<Held>, Fail> {
     let (script, tail_eof) = script_from(script_seed, hard);
-    let want = ref_read_n(src.len(), &script, tail_eof, count, attempts);
-    let mut reader = SimReader::new(src, script, tail_eof);
+    let mut reader = SimReader::new(src, script.clone(), tail_eof);
     let got = arena.read_n(&mut reader, count, NonZeroUsize::new(attempts).unwrap());
+    let want = ref_read_n_traced(src.len(), &script, tail_eof, count, attempts, &reader.offered);
     for (i, name) in ["short_read", "full_read", "eintr", "eof", "hard_error"]
         .iter()
         .enumerate()
